@@ -418,7 +418,39 @@ def _all(it):
     return True
 
 
-FUNCS = {"format_rules": format_rules, "tile_padding": tile_padding, "rolling_dims": rolling_dims, "weight_dma": weight_dma, "buffering": buffering, "weight_ranges": weight_ranges, "idle_core": idle_core, "fm_in_tensor": fm_in_tensor, "lr_rolling": lr_rolling, "nhcwb16_shapes": nhcwb16_shapes, "footprint": footprint, "mem_limits": mem_limits, "rolling": rolling, "regions": regions}
+def footprint_strided(V, first_dense):
+    """a feature map with EXPLICIT strides (a depth slice of a deeper NHWC tensor: the element stride along the width is k times the slice's own
+    depth): every element's bytes lie inside the address ranges get_address_ranges declares for it - also when an otherwise identical dense
+    feature map (same region, base, shape, tiles, type, layout) was analysed earlier in the same process."""
+    import ethosu.vela.register_command_stream_util as u
+    from ethosu.vela import api as a
+
+    H, W, D = 8, 4, 16
+    k = V.int("slice_of_k_times_deeper_tensor", 1, 4)
+    y, x, c = V.int("y", 0, H - 1), V.int("x", 0, W - 1), V.int("c", 0, D - 1)
+
+    def fm(strides):
+        f = a.NpuFeatureMap()
+        f.data_type = a.NpuDataType.INT8
+        f.shape = a.NpuShape3D(H, W, D)
+        f.tiles = a.NpuTileBox(height_0=H, height_1=H, width_0=W, addresses=[4096, 0, 0, 0])
+        f.region = 1
+        f.layout = a.NpuLayout.NHWC
+        f.strides = strides
+        return f
+
+    sx = D * k
+    sy = W * sx
+    with core.shims((u, {"min": core.smin, "max": core.smax, "int": core.IntShim})):
+        if first_dense:
+            u.get_address_ranges(fm(None))
+        ranges = u.get_address_ranges(fm(a.NpuShape3D(height=sy, width=sx, depth=1)))
+    addr = 4096 + L(y) * L(sy) + L(x) * L(sx) + L(c)
+    inside = [z3.And(L(r.address) <= addr, addr + 1 <= L(r.address) + L(r.length)) for r in ranges if r is not None]
+    return [("every element of the strided view lies inside a declared address range", z3.Or(*inside) if inside else z3.BoolVal(False))]
+
+
+FUNCS = {"footprint_strided": footprint_strided, "format_rules": format_rules, "tile_padding": tile_padding, "rolling_dims": rolling_dims, "weight_dma": weight_dma, "buffering": buffering, "weight_ranges": weight_ranges, "idle_core": idle_core, "fm_in_tensor": fm_in_tensor, "lr_rolling": lr_rolling, "nhcwb16_shapes": nhcwb16_shapes, "footprint": footprint, "mem_limits": mem_limits, "rolling": rolling, "regions": regions}
 
 
 def instances(tier, seed):
@@ -458,6 +490,8 @@ def instances(tier, seed):
     for gname in ("weights", "biases"):
         out.append(dict(key="idle_core/%s" % gname, fn="idle_core", params=dict(accel="Ethos_U65_512", kind="conv", group=gname, light=True), weight=100))
     out.append(dict(key="rolling_dims", fn="rolling_dims", params={}))
+    for fd in (0, 1):
+        out.append(dict(key="footprint_strided/%s" % ("after_dense" if fd else "alone"), fn="footprint_strided", params=dict(first_dense=fd)))
     for nprod, ncons in ((1, 1), (1, 2), (2, 1)):
         for accel in ("Ethos_U55_128", "Ethos_U65_512"):
             if tier == "quick" and nprod + ncons > 2 and accel != "Ethos_U55_128":
